@@ -268,8 +268,40 @@ def h_ipv6(ctx, part, pattern=0, free=(0,)):
     ctx.assume((num(nb) & ~mask) == 0)                     # the API requires the network address (see OUTSIDE)
     ctx.check('in_network', Iff(a.in_network((net, bits)), (num(b) & mask) == num(nb)))
     cm = A.IPAddr6.cidr_to_netmask(bits)
+    ctx.check('cidr_to_netmask returns the netmask as an IPAddr6 (as documented)', isinstance(cm, A.IPAddr6))
+    ctx.check('from_num is the inverse of num', isinstance(A.IPAddr6.from_num(num(b)), A.IPAddr6) and A.IPAddr6.from_num(num(b)) == a)
     ctx.check('cidr_to_netmask', A.IPAddr6.from_raw(cm).num == mask if isinstance(cm, bytes) else cm.num == mask)
     ctx.check('netmask_to_cidr', A.IPAddr6.netmask_to_cidr(A.IPAddr6.from_raw(cm) if isinstance(cm, bytes) else cm) == bits)
+  elif part == 'cidr6':
+    # textual networks "addr/bits" and "addr/netmask": the low group (the whole host part for /112, part of it for shorter prefixes) is symbolic.
+    # The lenient and the strict reading of the *same text* are asked for in both orders: an answer never depends on what was parsed before.
+    bits, order = pattern, free
+    groups = [0x2001, 0x0db8, 0x1234, 0xabcd, 0x1111, 0x2222, 0x3333, ctx.int('g7', 0, 0xffff)]
+    if bits < 112: groups[6] = 0x3300 if bits >= 104 else 0
+    raw = []
+    for g in groups: raw += [g >> 8, g & 255]
+    from props import env
+    a = A.IPAddr6.from_raw(env.tobytes(ctx, raw))
+    mask = (~((1 << (128 - bits)) - 1)) & ((1 << 128) - 1)
+    hostzero = (a.num & ~mask & ((1 << 128) - 1)) == 0
+    txt = a.to_str() + ('/%d' % bits if order != 'netmask' else '/' + A.IPAddr6.from_num(mask).to_str())
+    def lenient():
+      r = A.IPAddr6.parse_cidr(txt, allow_host=True)
+      ctx.check('lenient parse_cidr: address and prefix length', r[0] == a and r[1] == bits)
+    def strict():
+      try: r = A.IPAddr6.parse_cidr(txt)
+      except RuntimeError: r = None
+      ctx.check('strict parse_cidr rejects a network with host bits, accepts one without', Iff(r is not None, hostzero))
+      if r is not None: ctx.check('strict parse_cidr: address and prefix length', r[0] == a and r[1] == bits)
+    if order == 'strict_first': strict(); lenient(); strict()
+    else: lenient(); strict(); lenient()
+    x = ctx.bytes('x', 16); xa = A.IPAddr6.from_raw(x)
+    try: r = xa.in_network(txt)
+    except RuntimeError: r = None
+    ctx.check('in_network(text) rejects a network with host bits', Iff(r is not None, hostzero))
+    if r is not None: ctx.check('in_network(text)', Iff(r, (num(x) & mask) == a.num))
+    if bool(hostzero): ctx.witness('cidr6-network')
+    else: ctx.witness('cidr6-host-bits')
   elif part == 'malformed':
     for txt in ('1::2::3', '1:2:3:4:5:6:7:8:9', '12345::1', 'g::1', '1.2.3.4', ':::'):
       ctx.check('malformed %s rejected' % txt, raises(lambda: A.IPAddr6(txt), Exception))
@@ -363,6 +395,8 @@ def obligations(tier):
     v6.append(dict(part='text', pattern=p, free=tuple(nz[:2]) if not thorough else tuple(nz[:3])))
   for bits in (range(0, 129) if thorough else (0, 1, 7, 8, 9, 63, 64, 65, 96, 127, 128)):
     v6.append(dict(part='network', pattern=bits))
+  for bits in ((112, 120, 104, 64, 128, 0) if thorough else (112, 120, 64)):
+    for order in ('lenient_first', 'strict_first') + (('netmask',) if bits in (112, 64) else ()): v6.append(dict(part='cidr6', pattern=bits, free=order))
   BOUNDS[tier] = dict(ipv4="all 2^32 addresses, all 33 prefix lengths (symbolic), all 2^32 netmasks", ethernet="all 2^48 addresses; text forms xx:xx, xx-xx, 12 digits, upper case, short groups",
                       ipv6="raw: all addresses; text: %d zero-run patterns with symbolic non-zero groups (digit counts free on the first %d non-zero groups); "
                            "membership/masks: %s prefix lengths" % (len(pats), 3 if thorough else 2, 'all 129' if thorough else '11'),
@@ -370,7 +404,7 @@ def obligations(tier):
   return [
     Obligation('O1_ipv4', h_ipv4, v4, witnesses=('net', 'contiguous', 'rejected', 'parsed'), max_decisions=20000, desc='IPAddr numeric/text/compare/network/CIDR/netmask/inference'),
     Obligation('O2_eth', h_eth, eth, max_decisions=20000, desc='EthAddr raw/text forms/compare/flags/malformed'),
-    Obligation('O3_ipv6', h_ipv6, v6, width=160, witnesses=('text',), max_decisions=20000, desc='IPAddr6 raw/RFC 5952 text/membership/masks/malformed'),
+    Obligation('O3_ipv6', h_ipv6, v6, width=160, witnesses=('text', 'cidr6-network', 'cidr6-host-bits'), max_decisions=20000, desc='IPAddr6 raw/RFC 5952 text/membership/masks/CIDR text (lenient and strict, both orders)/malformed'),
     Obligation('O5_forms', h_forms, [dict(typ=t, form=f) for t in ('eth', 'ip4', 'ip6') for f in ('bytearray', 'bytearray_raw_kw', 'bytearray_raw_true', 'list', 'tuple', 'copy')
                                      if not (t != 'eth' and f in ('list', 'tuple')) and not (t != 'ip6' and f.startswith('bytearray_raw'))], witnesses=('done',), max_decisions=20000, conc_cap=600,
                desc='binary input forms (bytearray / list / tuple / copy): equality, hash, text, immutable raw value, independence from the source buffer'),
